@@ -252,8 +252,14 @@ func (d *Driver) Translate(p *Package, flags ...string) *Translation {
 	}
 	if tr.Exit == 1 {
 		// partial output
-		d.runGoose(p, out, append(append([]string{}, flags...), "-ignore-errors")...)
+		code2, stderr2 := d.runGoose(p, out, append(append([]string{}, flags...), "-ignore-errors")...)
 		tr.Partial = true
+		if code2 != 0 && code2 != 1 {
+			// with -ignore-errors goose goes on past the reported error and may then crash
+			tr.Crashed = true
+			tr.Exit = code2
+			tr.Stderr += "\n--- with -ignore-errors:\n" + stderr2
+		}
 	}
 	if b, err := os.ReadFile(vfile); err == nil {
 		tr.V = string(b)
